@@ -76,9 +76,13 @@ def oracle(line_, meta, impl):
         return ("malformed", impl[:100])
     for op, st in zip(ops, steps):
         if op[0] in "PZ":
+            if st == ("skipped",):
+                continue
             if len(st) != 3:
                 return ("malformed", impl[:100])
             n = 0 if op[1:] == "-" else len(op[1:]) // 2
+            if op[0] == "Z":
+                n += 1          # the terminating NUL belongs to the bytes given
             if not (0 <= st[1] <= n):
                 return ("end-beyond-len", "end position %d beyond the %d bytes given" % (st[1], n))
             if (st[0] == "success") != (st[2] != "-"):
